@@ -20,7 +20,7 @@ IMPORTANT for this round: real regressions rarely arrive as a one-token edit. EM
 
 TEMPLATE = """You are helping to evaluate a verification tool for the Python library **icontract** (design-by-contract decorators: `require`, `ensure`, `snapshot`, `invariant`, contract inheritance through the `DBC`/`DBCMeta` metaclass, and an AST re-evaluator that builds violation messages).
 
-You have your own scratch git worktree of the library at `{wt}`. Work ONLY inside `{wt}` and `{out}/{pid}`. Never modify, and do not read, anything under `/repo` or `/verif` or other `/tmp/wt*` directories.
+You have your own scratch git worktree of the library at `{wt}`. Work ONLY inside `{wt}` and `{out}/{pid}`. Never modify, and do not read, anything under `/repo` or `/verif` or other `/tmp/wt*` directories. Do not use `git stash` (the stash is shared by all worktrees of a repository; other people work in sibling worktrees): to get back to the clean tree save `git diff` to a file and run `git checkout -- .`.
 
 ## The property
 
